@@ -1,5 +1,6 @@
 """C20: internal containers behave like their simple abstract models."""
 import itertools
+import random
 import uuid as uuidlib
 
 import gtirb
@@ -62,6 +63,11 @@ def gen_case(rng, tier, index):
                 c["ops"].append(["retarget", rng.randrange(nb),
                                  rng.randrange(nb), rng.random() < 0.4,
                                  rng.random() < 0.25])
+                if random.Random(f"rn:{index}:{len(c['ops'])}").random() \
+                        < 0.12:
+                    # "nowhere": legal for a block nothing refers to (what
+                    # removing the last block of a section asks for)
+                    c["ops"][-1][2] = -1
             elif r < 0.6:
                 c["ops"].append(["get_referent", rng.randrange(ns)])
             elif r < 0.72:
@@ -230,6 +236,13 @@ def run_refcache(c, v):
                 _, a, b, e, keep = op
                 moved = [i for i, (mb, me) in model.items()
                          if mb is blocks[a]]
+                if b == -1:
+                    if not moved:
+                        rc.retarget_references(blocks[a], None, e)
+                        v.ctr["retargets_to_nowhere"] = v.ctr.get(
+                            "retargets_to_nowhere", 0) + 1
+                        compare(k)
+                    continue
                 kw = {"keep_end_references": True} if keep else {}
                 try:
                     rc.retarget_references(blocks[a], blocks[b], e, **kw)
